@@ -37,7 +37,8 @@ impl<F: Fl> Ids<F> {
 }
 
 fn snap1<F: Fl>(c: F, mag: f64) -> (i64, i64) {
-    let v = c.to_f64();
+    // (STAGE_FRAME: stage runs in a power-of-two frame are read back in the integer frame; the factor is exact)
+    let v = c.to_f64() * 2f64.powi(-STAGE_FRAME.with(|f| f.get()));
     if !v.is_finite() || v.abs() > run::COORD_CAP {
         return (run::COORD_CAP as i64, run::DEV_CAP);
     }
@@ -145,8 +146,9 @@ fn mp_json(mp: &IMp) -> String {
 pub fn stage_run<F: Fl>(rid: u64, family: &str, seed: u64, a: &IMp, b: &IMp, op: &str, matrix_max: usize, rng: &mut Rng) -> String {
     // (NEG_ZERO: zeros of the SECOND operand - and of both, in half of those runs - are handed over as -0.0)
     let nz = NEG_ZERO.with(|z| z.get());
-    let ga = run::to_geo_nz::<F>(a, 0, if nz.0 { (true, true) } else { (false, false) });
-    let gb = run::to_geo_nz::<F>(b, 0, if nz.1 { (true, true) } else { (false, false) });
+    let fr = STAGE_FRAME.with(|f| f.get());
+    let ga = run::to_geo_nz::<F>(a, fr, if nz.0 { (true, true) } else { (false, false) });
+    let gb = run::to_geo_nz::<F>(b, fr, if nz.1 { (true, true) } else { (false, false) });
     let mag = run::magnitude(&[a, b]);
     let operation = run::op_of(op);
     let inf = BoundingBox { min: Coord { x: F::infinity(), y: F::infinity() }, max: Coord { x: F::neg_infinity(), y: F::neg_infinity() } };
@@ -278,9 +280,12 @@ pub fn stage_run<F: Fl>(rid: u64, family: &str, seed: u64, a: &IMp, b: &IMp, op:
 
 thread_local! {
     static NEG_ZERO: std::cell::Cell<(bool, bool)> = const { std::cell::Cell::new((false, false)) };
+    /// power-of-two frame of the stage runs (0 = the integer frame): the operands are handed over scaled by 2^k (exact),
+    /// every recorded coordinate is scaled back (exact) before it is snapped, so the same integer contracts judge the run
+    static STAGE_FRAME: std::cell::Cell<i32> = const { std::cell::Cell::new(0) };
 }
 
-pub fn rec_stages(kind_f32: bool, fams: &[&str], count: u64, seed: u64, kmax: i64, max_edges: usize, matrix_max: usize, rid0: u64, efrom: u64, estride: u64) {
+pub fn rec_stages(kind_f32: bool, fams: &[&str], count: u64, seed: u64, kmax: i64, max_edges: usize, matrix_max: usize, rid0: u64, efrom: u64, estride: u64, frames: bool) {
     let o = ops::Opts { kmax, max_edges };
     let mut rid = rid0;
     for i in 0..count {
@@ -298,6 +303,11 @@ pub fn rec_stages(kind_f32: bool, fams: &[&str], count: u64, seed: u64, kmax: i6
         };
         // one run in five hands the zeros of the operands over as -0.0 (a mirrored operand): equal points with different bits
         NEG_ZERO.with(|z| z.set(if rng.chance(1, 5) { (rng.chance(1, 2), true) } else { (false, false) }));
+        if frames {
+            // far from the unit scale in both directions: whole operands below the machine epsilon, or huge
+            let k = if kind_f32 { rng.range(18, 30) } else { rng.range(50, 80) } as i32;
+            STAGE_FRAME.with(|f| f.set(if rng.chance(2, 3) { -k } else { k }));
+        }
         for (op, _) in run::OPS {
             let line = if kind_f32 {
                 stage_run::<f32>(rid, fam, sd, &a, &b, op, matrix_max, &mut rng)
